@@ -35,6 +35,11 @@ struct Inst {
   std::vector<std::vector<float>> fcosts;  // [sink][source]
   bool inc = false;                        // call increaseCapacity() before solve()
   std::vector<std::vector<ll>> extraAlloc; // optional setAllocations + toAssignment afterwards
+  // object history (family "state carried across calls"): when non-empty the problem is built once and these steps are
+  // applied to the SAME object in order.  S solve, ID increaseDemand, IC increaseCapacity, AS:d addSource(d), AK:c addSink(c),
+  // DC addDummyCapacity, DD addDummyDemand, RA resetAllocations, SA:p setAllocations(pattern p), SG:p setAssignment(pattern p),
+  // MF makeFeasible, CP continue on a copy of the object.  Carried in the failure input (`;hist=`) and read back on replay.
+  std::vector<std::string> hist;
   std::string tag;
 
   int n() const { return caps.size(); }
@@ -54,6 +59,7 @@ struct Inst {
         os << vh::join(icosts[i], ",");
       }
     }
+    if (!hist.empty()) { os << ";hist="; for (size_t i = 0; i < hist.size(); ++i) os << (i ? "," : "") << hist[i]; }
     return os.str();
   }
   static std::vector<std::string> split(const std::string &s, char c) {
@@ -74,6 +80,7 @@ struct Inst {
       else if (k == "dems") { for (auto &x : split(v, ',')) if (!x.empty()) in.dems.push_back(atoll(x.c_str())); }
       else if (k == "kind") in.isFloat = (v == "f");
       else if (k == "inc") in.inc = (v == "1");
+      else if (k == "hist") { for (auto &x : split(v, ',')) if (!x.empty()) in.hist.push_back(x); }
       else if (k == "costs") {
         for (auto &row : split(v, '|')) {
           std::vector<int> ir; std::vector<float> fr;
@@ -388,6 +395,186 @@ struct Runner {
     if (maxd >= 1000000) out.count("max_demand_ge_1e6");
     out.sample(input);
   }
+
+  // ---- objects with a past (family: state carried across calls on one TransportationProblem) ---------------------
+  // The property speaks about solve() on *any* problem whose total demand does not exceed its total capacity, hence also
+  // about an object that was solved before and then changed through its public mutators.  Everything demanded below is
+  // stated w.r.t. the data the object itself reports NOW (capacities(), demands(), costs()):
+  //  * correspondence: the Lean model of a FRESH problem built from that data must return the same plan/assignment;
+  //  * oracle: every source fully allocated, no sink over capacity, no negative entry, argmax assignment, and total cost
+  //    (exact, 128-bit) equal to the cost of the plan a fresh object with the same data returns (both must be minimal,
+  //    so the two costs must be equal - the plans themselves are not compared by the oracle), brute force when tiny.
+  typedef __int128 i128;
+  static std::string str128(i128 v) {
+    if (v == 0) return "0";
+    bool neg = v < 0; if (neg) v = -v;
+    std::string r; while (v > 0) { r += (char)('0' + (int)(v % 10)); v /= 10; }
+    if (neg) r += '-';
+    std::reverse(r.begin(), r.end());
+    return r;
+  }
+  static i128 planCost(const std::vector<std::vector<int>> &c, const std::vector<std::vector<ll>> &x) {
+    i128 t = 0;
+    for (size_t i = 0; i < c.size() && i < x.size(); ++i)
+      for (size_t j = 0; j < c[i].size() && j < x[i].size(); ++j) t += (i128)c[i][j] * (i128)x[i][j];
+    return t;
+  }
+
+  bool checkSolved(const std::string &id, int solveNo, TransportationProblem &pb, const std::string &input, const std::string &past) {
+    const int n = pb.nbSinks(), m = pb.nbSources();
+    const std::vector<std::vector<ll>> x = pb.allocations();
+    const std::vector<ll> caps = pb.capacities(), dems = pb.demands();
+    const std::vector<std::vector<int>> costs = pb.costs();
+    const std::string cid = id + "@" + std::to_string(solveNo);
+    const std::string where = " (solve #" + std::to_string(solveNo) + " of the object, after: " + (past.empty() ? "nothing" : past) + ")";
+    out.ops << "case " << cid << "\n";
+    out.impl << "case " << cid << "\n";
+    out.ops << "caps " << vh::join(caps) << "\n" << "dems " << vh::join(dems) << "\n";
+    for (auto &r : costs) out.ops << "irow " << vh::join(r) << "\n";
+    out.ops << "build\nsolve\nassign\n";
+    std::vector<int> asg = pb.toAssignment();
+    out.impl << "costs " << matStrI(costs) << "\n" << "status ok\n" << "alloc " << matStr(x) << "\n" << "cert ok\nbound ok\n"
+             << "assign " << vh::join(asg) << "\n";
+    out.count("history_solve_checked");
+    bool shape = (int)x.size() == n && (int)costs.size() == n && (int)caps.size() == n && (int)dems.size() == m;
+    for (auto &r : x) shape = shape && (int)r.size() == m;
+    for (auto &r : costs) shape = shape && (int)r.size() == m;
+    if (!shape) { out.fail(id, "allocation/cost matrix has the wrong shape" + where, input); return false; }
+    bool feasible = true;
+    for (int j = 0; j < m && feasible; ++j) {
+      ll s = 0;
+      for (int i = 0; i < n; ++i) s += x[i][j];
+      if (s != dems[j]) { out.fail(id, "source " + std::to_string(j) + " not fully allocated: " + std::to_string(s) + " of " + std::to_string(dems[j]) + where, input); feasible = false; }
+    }
+    for (int i = 0; i < n; ++i) {
+      ll s = 0;
+      for (int j = 0; j < m; ++j) {
+        s += x[i][j];
+        if (x[i][j] < 0) { out.fail(id, "negative allocation" + where, input); feasible = false; }
+      }
+      if (s > caps[i]) { out.fail(id, "sink " + std::to_string(i) + " over capacity" + where, input); feasible = false; }
+    }
+    if ((int)asg.size() != m) out.fail(id, "toAssignment has the wrong size" + where, input);
+    else
+      for (int j = 0; j < m; ++j) {
+        bool ok = asg[j] >= 0 && asg[j] < n;
+        for (int i = 0; ok && i < n; ++i) ok = x[asg[j]][j] >= x[i][j];
+        if (!ok) { out.fail(id, "toAssignment: source " + std::to_string(j) + " not given the sink receiving most of it" + where, input); break; }
+      }
+    if (!feasible) return false;
+    // minimality: a fresh object with the same data (solved once, no past)
+    i128 actual = planCost(costs, x);
+    {
+      TransportationProblem fresh(caps, dems, costs);
+      fresh.solve();
+      i128 fc = planCost(costs, fresh.allocations());
+      if (fc != actual) {
+        out.fail(id, "plan cost " + str128(actual) + " != cost " + str128(fc) + " of the plan returned by a fresh object with the same capacities/demands/costs "
+                     "(both are claimed minimal)" + where, input);
+        return false;
+      }
+      out.count(fresh.allocations() == x ? "history_plan_equals_fresh_plan" : "history_plan_differs_from_fresh_plan_same_cost");
+    }
+    ll maxd = 0;
+    for (ll d : dems) maxd = std::max(maxd, d);
+    if (m <= 5 && n <= 4 && maxd <= 8 && bruteBudget > 0) {
+      --bruteBudget;
+      out.count("history_brute_force_checked");
+      std::vector<std::vector<ll>> c(n, std::vector<ll>(m));
+      for (int i = 0; i < n; ++i) for (int j = 0; j < m; ++j) c[i][j] = costs[i][j];
+      ll opt = 0;
+      if (!bruteOptimum<ll>(caps, dems, c, opt)) out.fail(id, "oracle: brute force found no plan" + where, input);
+      else if ((i128)opt != actual) { out.fail(id, "plan cost " + str128(actual) + " != brute-force optimum " + std::to_string(opt) + where, input); return false; }
+    }
+    return true;
+  }
+
+  static bool sameData(const TransportationProblem &pb, const std::vector<ll> &c, const std::vector<ll> &d, const std::vector<std::vector<int>> &k) {
+    return pb.capacities() == c && pb.demands() == d && pb.costs() == k;
+  }
+
+  void runHistory(const std::string &id, const Inst &in) {
+    std::string input = in.str();
+    vh::setCase(id, input);
+    out.evaluations++;
+    out.count("history_cases");
+    std::unique_ptr<TransportationProblem> pbp;
+    try {
+      if (in.isFloat) pbp.reset(new TransportationProblem(in.caps, in.dems, in.fcosts));
+      else pbp.reset(new TransportationProblem(in.caps, in.dems, in.icosts));
+    } catch (const std::runtime_error &) {
+      out.count("constructor_throws");
+      return;
+    }
+    int solves = 0;
+    std::string past;                 // mutators since the last solve
+    bool dataChanged = false, allocChanged = false;
+    bool ok = true;
+    for (size_t s = 0; s < in.hist.size() && ok; ++s) {
+      std::string op = in.hist[s];
+      ll arg = 0;
+      size_t colon = op.find(':');
+      if (colon != std::string::npos) { arg = atoll(op.c_str() + colon + 1); op = op.substr(0, colon); }
+      TransportationProblem &pb = *pbp;
+      const int n = pb.nbSinks(), m = pb.nbSources();
+      if (op == "S") {
+        if (pb.totalDemand() > pb.totalCapacity()) { out.count("history_solve_skipped_demand_exceeds_capacity"); continue; }  // outside the precondition
+        pb.solve();
+        ++solves;
+        if (solves >= 2) {
+          out.count(past.empty() ? "history_resolve_with_nothing_between" : "history_resolve_after_mutators");
+          if (dataChanged) out.count("history_resolve_after_data_changed");
+          else if (allocChanged) out.count("history_resolve_after_plan_overwritten");
+        }
+        ok = checkSolved(id, solves, pb, input, past);
+        past.clear();
+        dataChanged = allocChanged = false;
+        continue;
+      }
+      const std::vector<ll> c0 = pb.capacities(), d0 = pb.demands();
+      const std::vector<std::vector<int>> k0 = pb.costs();
+      const std::vector<std::vector<ll>> a0 = pb.allocations();
+      bool done = true;
+      try {
+        if (op == "ID") pb.increaseDemand();
+        else if (op == "IC") pb.increaseCapacity();
+        else if (op == "AS") pb.addSource(std::max<ll>(1, arg));
+        else if (op == "AK") { if (n < 16) pb.addSink(std::max<ll>(1, arg)); else done = false; }
+        else if (op == "DC") { if (n < 16) pb.addDummyCapacity(); else done = false; }
+        else if (op == "DD") pb.addDummyDemand();
+        else if (op == "RA") pb.resetAllocations();
+        else if (op == "SA") {
+          std::vector<std::vector<ll>> a(n, std::vector<ll>(m));
+          for (int i = 0; i < n; ++i) for (int j = 0; j < m; ++j) a[i][j] = (ll)((i * 7 + j * 3 + arg) % 5) * (arg % 3 == 0 ? 1 : (ll)(j + 1));
+          pb.setAllocations(a);
+        } else if (op == "SG") {
+          std::vector<int> a(m);
+          for (int j = 0; j < m; ++j) a[j] = (int)((j * (arg + 1) + arg) % n);
+          pb.setAssignment(a);
+        } else if (op == "MF") pb.makeFeasible();
+        else if (op == "CP") { std::unique_ptr<TransportationProblem> cp(new TransportationProblem(pb)); pbp.swap(cp); }
+        else done = false;
+      } catch (const std::runtime_error &) {
+        out.count("history_step_" + op + "_throws");   // e.g. makeFeasible with demand > capacity: documented refusal
+      }
+      if (!done) continue;
+      TransportationProblem &q = *pbp;
+      bool dc = !sameData(q, c0, d0, k0), ac = q.allocations() != a0;
+      out.count("history_step_" + op);
+      if (solves >= 1 && dc) out.count("history_step_" + op + "_after_a_solve_changed_problem_data");
+      if (solves >= 1 && !dc && ac) out.count("history_step_" + op + "_after_a_solve_overwrote_plan");
+      dataChanged = dataChanged || dc;
+      allocChanged = allocChanged || ac;
+      past += (past.empty() ? "" : ",") + in.hist[s];
+      // the mutators' own contracts, as far as the property names them (the capacity-increase normalisation)
+      if (op == "IC" && q.totalCapacity() < q.totalDemand()) out.fail(id, "increaseCapacity: capacity still below demand", input);
+    }
+    out.count("tag_" + in.tag);
+    out.count(in.isFloat ? "history_float_costs" : "history_int_costs");
+    out.count("history_solves_" + std::to_string(std::min(solves, 4)));
+    if (solves >= 2) out.nontrivial(vh::hashStr(input));
+    out.sample(input);
+  }
 };
 
 // ---- generators -------------------------------------------------------------------------------
@@ -504,7 +691,7 @@ static void addNegatives(vh::Rng &g, std::vector<std::vector<float>> &fc, bool i
   }
 }
 
-static Inst randomInst(vh::Rng &g, bool tiny, bool huge = false) {
+static Inst randomInst(vh::Rng &g, bool tiny, bool huge = false, bool noScale = false) {
   Inst in;
   int n, m;
   if (tiny) { n = g.range(1, 4); m = g.range(1, 5); in.tag = "tiny"; }
@@ -517,7 +704,7 @@ static Inst randomInst(vh::Rng &g, bool tiny, bool huge = false) {
   // demands.  Large magnitudes are a small instance scaled by a common factor F: solve() is
   // pseudo-polynomial (a round moves at most the smallest allocation on its chain, e.g. caps 3,2e9 / demand 1e8 /
   // costs 0,1 takes 3.3e7 rounds), so unstructured huge demands would only measure that.
-  int dmode = tiny ? 0 : (huge ? 4 : g.range(0, 4));
+  int dmode = tiny ? 0 : (huge ? 4 : g.range(0, noScale ? 3 : 4));
   ll dmax = dmode == 0 ? 4 : (dmode == 1 ? 1 : (dmode == 2 ? 20 : (dmode == 3 ? 200 : 20)));
   ll F = 1;
   if (huge) { F = (1LL << g.range(28, 36)) + g.range(0, 1000); }
@@ -596,6 +783,56 @@ static Inst randomInst(vh::Rng &g, bool tiny, bool huge = false) {
   return in;
 }
 
+// Objects with a past.  Family addressed: state carried across calls on one TransportationProblem - anything solve() (or a
+// getter) remembers from an earlier call and a mutator forgets to invalidate (memoised solve, cached totals/orderings, a plan kept
+// from before), for EVERY public mutator, alone and in short combinations, and for copies taken after a solve.
+// Shapes: solve;solve  |  solve; 1..3 mutators; solve  |  two such rounds  |  a mutator before the first solve.
+// Quantities stay unscaled and the added sinks/sources small: solve() is pseudo-polynomial in demand / smallest share.
+static Inst historyInst(vh::Rng &g, bool tiny) {
+  Inst in = randomInst(g, tiny, false, true);
+  in.extraAlloc.clear();
+  in.tag = tiny ? "history_tiny" : "history";
+  // sinks may be added later (<= 3): keep |int cost| <= INT_MAX/(8 * final sinks) like the other streams
+  if (!in.isFloat) for (auto &r : in.icosts) for (int &v : r) if (v > 1000 || v < -1000) v /= 4;
+  const ll q = tiny ? 4 : 20;
+  int sinksAdded = 0;
+  std::vector<std::string> &h = in.hist;
+  auto mutator = [&]() {
+    int k = g.range(0, 11);
+    if ((k == 4 || k == 5) && (in.n() + sinksAdded >= 16 || sinksAdded >= 3)) k = 0;
+    switch (k) {
+      case 0: case 1: h.push_back("ID"); break;
+      case 2: h.push_back("IC"); break;
+      case 3:
+        h.push_back("AS:" + std::to_string(g.range(1, q)));
+        if (!g.chance(1, 3)) {   // usually restore demand <= capacity the documented ways
+          if (g.chance(1, 2) && in.n() + sinksAdded < 16 && sinksAdded < 3) { h.push_back("DC"); ++sinksAdded; } else h.push_back("IC");
+        }
+        break;
+      case 4: h.push_back("AK:" + std::to_string(g.range(1, q))); ++sinksAdded; break;
+      case 5: h.push_back("DC"); ++sinksAdded; break;
+      case 6: h.push_back("DD"); break;
+      case 7: h.push_back("RA"); break;
+      case 8: h.push_back("SA:" + std::to_string(g.range(0, 8))); break;
+      case 9: h.push_back("SG:" + std::to_string(g.range(0, 8))); break;
+      case 10: h.push_back("MF"); break;
+      default: h.push_back("CP"); break;
+    }
+  };
+  if (in.inc) h.push_back("IC");
+  in.inc = false;
+  if (g.chance(1, 6)) mutator();
+  h.push_back("S");
+  int rounds = g.chance(1, 10) ? 0 : (g.chance(1, 3) ? 2 : 1);
+  if (rounds == 0) { if (g.chance(1, 3)) h.push_back("CP"); h.push_back("S"); }
+  for (int r = 0; r < rounds; ++r) {
+    int k = g.chance(1, 2) ? 1 : g.range(2, 3);
+    for (int i = 0; i < k; ++i) mutator();
+    h.push_back("S");
+  }
+  return in;
+}
+
 static Inst invalidInst(vh::Rng &g) {
   Inst in = randomInst(g, true);
   in.tag = "invalid";
@@ -631,13 +868,18 @@ int main(int argc, char **argv) {
              "sources, demands to 1e9, |int cost| to INT_MAX/(8 sinks); float costs: 13 families over the whole finite float range - zeros, ties, "
              "dyadic, full mantissas, spreads 1e-6..1e6, distances, subnormals, any exponent, decimals/thirds, all <= 1e-8f, near FLT_MAX, "
              "mixtures - a quarter of them with negative entries down to -nbSinks*maxVal and a few just below); non-trivial = the capacity constraints were binding "
-             "(some source has units outside its cheapest sinks, so units had to be routed/moved between sinks); distinct by canonical text";
+             "(some source has units outside its cheapest sinks, so units had to be routed/moved between sinks); distinct by canonical text. "
+             "Objects with a past (ids p*, counters history_*): one TransportationProblem is solved, changed through its public mutators "
+             "(increaseDemand, increaseCapacity, addSource, addSink, addDummyCapacity/Demand, resetAllocations, setAllocations, setAssignment, "
+             "makeFeasible, copy) and solved again - also twice with nothing in between; after every solve the plan is checked against the data the "
+             "object reports then (getters), against a fresh object and against the Lean model of a fresh problem with that data; such a case is "
+             "non-trivial when the object was solved at least twice";
   Runner r(out, a.thorough() ? 400000 : (a.search() ? 120000 : 60000));
   long long k = 0;
   if (!a.replay.empty()) {
     std::string input;
     Inst in;
-    if (extractInput(a.replay, input) && Inst::parse(input, in)) { in.tag = "replay"; r.run("replay", in); }
+    if (extractInput(a.replay, input) && Inst::parse(input, in)) { in.tag = "replay"; if (in.hist.empty()) r.run("replay", in); else r.runHistory("replay", in); }
     else out.notes.push_back("could not parse the replay file");
     out.finish();
     return 0;
@@ -648,7 +890,7 @@ int main(int argc, char **argv) {
       Inst in;
       if (!Inst::parse(ln, in)) continue;
       in.tag = "corpus";
-      r.run("c" + std::to_string(k++), in);
+      if (in.hist.empty()) r.run("c" + std::to_string(k++), in); else r.runHistory("c" + std::to_string(k++), in);
     }
   }
   k = 0;
@@ -675,6 +917,13 @@ int main(int argc, char **argv) {
     bool huge = (i % 8 == 7);
     Inst in = (i % 97 == 96) ? invalidInst(g) : randomInst(g, !huge && i % 2 == 0, huge);
     r.run(std::string(huge ? "h" : (i % 2 == 0 ? "t" : "r")) + std::to_string(i), in);
+  }
+  // objects with a past (ids p<i>): one for every six fresh-object instances
+  long long nh = nr / 6;
+  for (long long i = 0; i < nh; ++i) {
+    vh::Rng g = vh::Rng::forCase(a.seed, 10000000 + i);
+    Inst in = historyInst(g, i % 2 == 0);
+    r.runHistory("p" + std::to_string(i), in);
   }
   out.finish();
   return 0;
